@@ -408,7 +408,9 @@ SCALARS = [Fraction(-2), Fraction(-1), Fraction(-1, 2), Fraction(0), Fraction(1,
 EXPS = [Fraction(x) for x in (-3, -2, -1, 0, 1, 2, 3)] + [Fraction(1, 2), Fraction(-1, 2)]
 BASES = [N(Fraction(1, 2)), N(2), N(10), N("e"), N(1), N(0), N(-2)]
 IVS_QUICK = [(-3, -1), (-2, 3), (0, 2), (-2, 0), (2, 2), (0, 0), (-1, -1), (1, 2), (Fraction(1, 2), 2),
-             (Fraction(-3, 2), Fraction(1, 2)), (1, 8), (3, 1), (Fraction(1, 4), 4), (Fraction(-1, 2), Fraction(-1, 4))]
+             (Fraction(-3, 2), Fraction(1, 2)), (1, 8), (3, 1), (Fraction(1, 4), 4), (Fraction(-1, 2), Fraction(-1, 4)),
+             # exact bounds closer together than the doubles around them
+             (10 ** 17, 10 ** 17 + 1), (-(10 ** 17) - 1, -(10 ** 17)), (Fraction(1, 3), Fraction(1, 3) + Fraction(1, 10 ** 18))]
 IVS_FLOAT = [(0.5, 1.5), (-0.1, 0.3), (0.1, 0.7), (-2.5, -0.25), (0.0, 1.0)]
 BIN_IN = ["+", "-", "*", "/", "%", "min", "max", "contains", "in", "<", "<=", ">", ">=", "==", "!="]
 BIN_NI = ["+", "-", "*", "/", "^", "min", "max", "contains", "in", "log", "<", "<=", ">", ">=", "==", "!="]
@@ -452,6 +454,8 @@ def exhaustive(tier):
             for f in BIN_IN:
                 add(["c2", f, I, N(x)])
             for f in BIN_NI:
+                if f == "^" and max(abs(Fraction(a)), abs(Fraction(b))) > 10 ** 6:
+                    continue        # number ^ interval is refused by signature; the oracle's own point evaluations would be astronomically large
                 add(["c2", f, N(x), I])
             for f in CMP:
                 add(["c2", f, I, N(x)], "dispatch")
@@ -676,7 +680,44 @@ def operand_pattern(r):
     return ps
 
 
+def chain_and_seams(ctx):
+    """comparison chains over intervals (if Ka evaluates a chain at all, it is the conjunction of its two halves),
+    interval expressions reached through arrays / comprehensions / variables, an operand evaluated once"""
+    rep = ctx["report"]
+    ivs = ["[1,2]", "[0,1]", "[2,3]", "[-1,1]", "[1,1]", "[1/2, 3/2]"]
+    nums = ["0", "1", "2", "3/2"]
+    chains = []
+    for a in ivs + nums:
+        for b in ivs:
+            for c in ivs + nums:
+                for o1, o2 in (("<", "<"), ("<=", "<="), ("<", "<="), ("<=", "<"), (">=", ">="), (">", ">=")):
+                    if len(chains) < 900:
+                        chains.append((a, o1, b, o2, c))
+    texts = []
+    for a, o1, b, o2, c in chains:
+        texts += ["%s %s %s %s %s" % (a, o1, b, o2, c), "(%s %s %s) * (%s %s %s)" % (a, o1, b, b, o2, c)]
+    obs = C.run_impl(C._seam_obs, texts, ctx["rundir"], limit=10.0)
+    for i, ch in enumerate(chains):
+        oc, oh = obs[2 * i], obs[2 * i + 1]
+        if oc.get("escaped") or oc.get("hung"):
+            rep.violation(dict(kind="escaped", exc=oc.get("escaped") or "hang", shape="chain"), "C07: the chain %s escapes or hangs" % texts[2 * i], dict(text=texts[2 * i]))
+        elif oc.get("status") == 0 and oh.get("status") == 0 and oc.get("value") != oh.get("value"):
+            rep.violation(dict(kind="chain-not-conjunction", ops="%s %s" % (ch[1], ch[3])),
+                          "C07 fails on the implementation: %s gives %s but its two halves give %s" % (texts[2 * i], oc.get("value"), oh.get("value")),
+                          dict(text=texts[2 * i], impl=oc.get("value"), expected=oh.get("value")))
+    C.seam_check(rep, ctx["rundir"], "C07",
+                 texts=["[1,2] * 2", "[-1,1] ^ 2", "1 ± 0.1", "10^16 ± 1", "[10^17, 10^17+1] + 0", "abs([-(10^17)-1, -(10^17)])", "[1/3, 1/3+1/10^18] * 3",
+                        "sqrt([4, 9])", "ln([1, e])", "[1,2] < 3", "2 in [1,3]", "min(0, [-1,1])", "max([1,2], 3/2)", "[-2,2] ^ (1/2)", "1 / [-1, 1]", "[3,1]"],
+                 wrappers=C.SEAM_WRAPPERS,
+                 templates=[("[%s, 5] * 2", ["1", "2", "-3"]), ("%s ± 1/2", ["1", "10^16", "-2"]), ("[-1, %s] ^ 2", ["1", "2", "3"]), ("%s in [1, 2]", ["0", "1", "3/2", "3"]),
+                            ("[1, 2] <= %s", ["1", "2", "3"]), ("min(%s, [-1, 1])", ["-2", "0", "2"])],
+                 pairs=[("seed(2); zc = rand(); (zc ± 0.001) == tol(zc, 0.001)", "1"), ("seed(2); zc = rand(); zc in (zc ± 0.001)", "1"),
+                        ("seed(2); size(rand() ± 0.001) <= 0.0021", "1"), ("seed(5); zi = rand() ± 0.25; size(zi) <= 0.5000001", "1"),
+                        ("seed(5); zi = tol(rand(), 0.25); (upper(zi) - lower(zi)) <= 0.5000001", "1")])
+
+
 def run(ctx):
+    chain_and_seams(ctx)
     rep, tier, seed = ctx["report"], ctx["tier"], ctx["seed"]
     rng = random.Random(seed * 104729 + 7)
     # ---- regression corpus first
